@@ -196,6 +196,18 @@ def _():
     na = len(list(a.iter_regions())) if a else 0; nb = len(list(b.iter_regions())) if b else 0
     if na != nb: return f"uncached snapshot has {na} painting region(s), cached has {nb}"
 
+@witness("C14", "default-region-initial-background")
+def _():
+    import ttconv.model as m, ttconv.style_properties as s, ttconv.isd as I
+    d = m.ContentDocument()
+    d.put_initial_value(s.StyleProperties.BackgroundColor, s.NamedColors.red.value)
+    b = m.Body(d); d.set_body(b); dv = m.Div(d); b.push_child(dv); p = m.P(d); dv.push_child(p)
+    sp = m.Span(d); p.push_child(sp); sp.push_child(m.Text(d, "x")); p.set_begin(Fraction(0)); p.set_end(Fraction(1))
+    st = I.ISD.significant_times(d)
+    a = I.ISD.from_model(d, Fraction(5)); c = I.ISD.from_model(d, Fraction(5), st)
+    na = len(list(a.iter_regions())); nc = len(list(c.iter_regions()))
+    if na != nc: return f"uncached snapshot shows {na} painted default region, cached shows {nc}"
+
 # ---------------------------------------------------------------- C15
 @witness("C15", "push-child-ancestor-cycle")
 def _():
